@@ -43,7 +43,7 @@ PINNED_SHA = {
 
 
 def scalars(ctx):
-    return [1, 2, N - 2, N - 1] + APPNOTE + [1 + ctx.symint("c09-d%d" % i, N - 1) for i in range(6)]
+    return [1, 2, N - 2, N - 1] + APPNOTE + [1 + ctx.symint("c09-d%d" % i, N - 1) for i in range(6 if ctx.quick else 22)]
 
 
 def key_of(ctx, i):
@@ -98,7 +98,7 @@ def eph_scalar(ctx, ri, cls, d=None):
 
 
 def cases(ctx):
-    for ri in (0, 4, 6, 7):
+    for ri in ((0, 4, 6, 7) if ctx.quick else range(len(scalars(ctx)))):
         for cls in EPH_CLASSES:
             for ki in (0, 2):
                 yield ("eph", ri, cls, ki)
